@@ -1,0 +1,171 @@
+//! Verification hooks. Compiled only with `--features verif`; thin public
+//! wrappers around crate-private functions so that an external harness can
+//! drive them in process. Nothing here changes behaviour.
+use crate::common::*;
+
+/// Run the create-side hasher over a list of caller supplied readers that
+/// share one running piece state, exactly as `Hasher::hash_contents` does for
+/// files. Returns per-stream `(length, md5 hex)` and the raw `pieces` bytes.
+pub fn hash_streams(
+  piece_length: usize,
+  md5sum: bool,
+  streams: Vec<Box<dyn BufRead>>,
+) -> std::result::Result<(Vec<(u64, Option<String>)>, Vec<u8>), String> {
+  let mut hasher = Hasher::new(md5sum, piece_length, None);
+  let mut infos = Vec::new();
+  for mut stream in streams {
+    let (md5, length) = hasher
+      .verif_hash_read_io(&mut *stream)
+      .map_err(|error| error.to_string())?;
+    infos.push((length.count(), md5.map(|digest| digest.to_string())));
+  }
+  let pieces = hasher.verif_finish();
+  Ok((infos, piece_bytes(&pieces)?))
+}
+
+/// `Hasher::hash_stdin` over a caller supplied reader.
+pub fn hash_stdin(
+  piece_length: usize,
+  md5sum: bool,
+  stream: &mut dyn BufRead,
+) -> std::result::Result<((u64, Option<String>), Vec<u8>), String> {
+  let hasher = Hasher::new(md5sum, piece_length, None);
+  let (mode, pieces) = hasher
+    .hash_stdin(stream)
+    .map_err(|error| error.to_string())?;
+  match mode {
+    Mode::Single { md5sum, length } => Ok((
+      (length.count(), md5sum.map(|digest| digest.to_string())),
+      piece_bytes(&pieces)?,
+    )),
+    Mode::Multiple { .. } => Err("hash_stdin returned multiple mode".into()),
+  }
+}
+
+fn piece_bytes(pieces: &PieceList) -> std::result::Result<Vec<u8>, String> {
+  let encoded = bendy::serde::ser::to_bytes(pieces).map_err(|error| error.to_string())?;
+  let colon = encoded
+    .iter()
+    .position(|byte| *byte == b':')
+    .ok_or_else(|| "piece list did not encode as a byte string".to_owned())?;
+  Ok(encoded[colon + 1..].to_vec())
+}
+
+pub fn pick_piece_length(content_size: u64) -> u64 {
+  PieceLengthPicker::from_content_size(Bytes(content_size)).count()
+}
+
+pub fn bytes_parse(text: &str) -> std::result::Result<u64, String> {
+  text
+    .parse::<Bytes>()
+    .map(Bytes::count)
+    .map_err(|error| variant_name(&error))
+}
+
+pub fn bytes_display(count: u64) -> String {
+  Bytes(count).to_string()
+}
+
+pub fn hostport_parse(text: &str) -> std::result::Result<String, String> {
+  text
+    .parse::<HostPort>()
+    .map(|host_port| host_port.to_string())
+    .map_err(|error| format!("{error:?}"))
+}
+
+pub fn hostport_to_bencode(text: &str) -> std::result::Result<Vec<u8>, String> {
+  let host_port = text
+    .parse::<HostPort>()
+    .map_err(|error| format!("{error:?}"))?;
+  bendy::serde::ser::to_bytes(&host_port).map_err(|error| error.to_string())
+}
+
+pub fn hostport_from_bencode(bencode: &[u8]) -> std::result::Result<String, String> {
+  bendy::serde::de::from_bytes::<HostPort>(bencode)
+    .map(|host_port| host_port.to_string())
+    .map_err(|error| error.to_string())
+}
+
+/// Build a magnet link from parts and print it.
+pub fn magnet_build(
+  infohash: [u8; 20],
+  name: Option<&str>,
+  trackers: &[&str],
+  peers: &[&str],
+  indices: &[u64],
+) -> std::result::Result<String, String> {
+  let mut link = MagnetLink::with_infohash(Infohash::from(infohash));
+  if let Some(name) = name {
+    link.set_name(name);
+  }
+  for tracker in trackers {
+    link.add_tracker(tracker.parse::<Url>().map_err(|error| error.to_string())?);
+  }
+  for peer in peers {
+    link.add_peer(
+      peer
+        .parse::<HostPort>()
+        .map_err(|error| format!("{error:?}"))?,
+    );
+  }
+  for index in indices {
+    link.add_index(*index);
+  }
+  Ok(link.to_string())
+}
+
+pub struct ParsedMagnet {
+  pub infohash: [u8; 20],
+  pub name: Option<String>,
+  pub trackers: Vec<String>,
+  pub peers: Vec<String>,
+}
+
+pub fn magnet_parse(text: &str) -> std::result::Result<ParsedMagnet, String> {
+  let link = text
+    .parse::<MagnetLink>()
+    .map_err(|error| match error {
+      Error::MagnetLinkParse { source, .. } => format!("{source:?}"),
+      other => variant_name(&other),
+    })?;
+  Ok(ParsedMagnet {
+    infohash: link.infohash.into(),
+    name: link.name.clone(),
+    trackers: link.trackers.iter().map(ToString::to_string).collect(),
+    peers: link.peers.iter().map(ToString::to_string).collect(),
+  })
+}
+
+/// `Metainfo::trackers` of a torrent given as bytes.
+pub fn trackers(metainfo: &[u8]) -> std::result::Result<Vec<String>, String> {
+  let metainfo = Metainfo::deserialize(&InputTarget::Stdin, metainfo)
+    .map_err(|error| variant_name(&error))?;
+  metainfo
+    .trackers()
+    .map(|tracker| {
+      tracker
+        .map(|url| url.to_string())
+        .map_err(|error| variant_name(&error))
+    })
+    .collect()
+}
+
+/// Connect the peer client to `addr` and fetch the info dictionary for
+/// `infohash`; returns the bencoded dictionary the client accepted.
+pub fn peer_fetch(addr: SocketAddr, infohash: [u8; 20]) -> std::result::Result<Vec<u8>, String> {
+  let client =
+    peer::Client::connect(&addr, Infohash::from(infohash)).map_err(|error| variant_name(&error))?;
+  let info = client
+    .fetch_info_dict()
+    .map_err(|error| variant_name(&error))?;
+  bendy::serde::ser::to_bytes(&info).map_err(|error| error.to_string())
+}
+
+fn variant_name(error: &Error) -> String {
+  let debug = format!("{error:?}");
+  debug
+    .split(|c: char| !c.is_alphanumeric())
+    .next()
+    .unwrap_or("")
+    .to_owned()
+}
